@@ -359,7 +359,7 @@ def native_replay(unit, check, res, rp_path, sdir):
     rc, out, _ = run_cmd(cmd, 300)
     if rc != 0:
         return None, 'replay does not compile against the current tree: ' + out[-400:]
-    rc, out, _ = run_cmd([exe, rp_path, check['name']], 60)
+    rc, out, _ = run_cmd([exe, rp_path + '.inputs', check['name']], 60)
     if rc == 'timeout':
         return None, 'replay timed out'
     return rc, out
@@ -477,6 +477,9 @@ def main(argv):
                    'failed_obligations': r.failed, 'checker_cmd': r.cmd,
                    'inputs': trace_inputs(r.trace), 'verifier_output': r.trace[-20000:]}
             json.dump(doc, open(rp, 'w'), indent=1)
+            with open(rp + '.inputs', 'w') as f:      # flat name=value view of the counterexample for replay.cpp
+                for k_, v_ in doc['inputs'].items():
+                    f.write('%s=%s\n' % (k_, v_))
             rc, rout = native_replay(r.unit, r.check, r, rp, sdir)
             doc['native_replay'] = {'rc': rc, 'output': rout}
             json.dump(doc, open(rp, 'w'), indent=1)
